@@ -10,7 +10,7 @@ import random
 from . import common as C, proggen as P, progrun as R, pyeval
 
 PROP = "C01"
-MODULES = ["RuschmProofs.C01"]
+MODULES = ["RuschmProofs.C01", "RuschmProofs.C01More"]
 SPELLINGS = [{"define": "sugar", "call": "direct", "params": "fixed"},
              {"define": "lambda", "call": "direct", "params": "fixed"},
              {"define": "sugar", "call": "apply", "params": "fixed"},
@@ -23,10 +23,12 @@ def run(rep, tier, rng):
     for i in range(n):
         seed = rng.randrange(1 << 60)
         nforms = rng.randrange(3, 10)
+        # a quarter of the groups are CLOSURE SOUP: instances of a few factories handing over to one another (proggen.closure_soup)
+        soup = rng.random() < 0.25
         ids = []
         for k, sp in enumerate(SPELLINGS):
             g = P.Gen(random.Random(seed), ticks=True, derived=False, spelling=sp)
-            forms = ["(import (verif host))"] + g.toplevel(nforms)
+            forms = ["(import (verif host))"] + (P.closure_soup(g) if soup else g.toplevel(nforms))
             cid = "p%d_%d" % (i, k)
             cases.append((cid, "progx", ["std+host"] + forms))
             ids.append(cid)
@@ -78,7 +80,9 @@ def main(tier, seed):
     rng = random.Random(seed)
     rep.cov["rule"] = ("type-directed random programs of 3-9 top-level forms over the core forms (fixed/rest parameters, "
                        "lambda, top-level and internal definitions, if, quote, literals, higher-order calls, apply, set!, "
-                       "vectors, bounded tail loops) with ticking sub-expressions, each rendered in 4 equivalent spellings; "
+                       "vectors, bounded tail loops) with ticking sub-expressions, and closure soup (instances of 2-3 closure factories "
+                       "that take a step budget, two other instances and an accumulator and hand over to one of them in tail position, "
+                       "under an operator, through apply, through a compound operator, from a let body), each rendered in 4 equivalent spellings; "
                        "distinct = distinct program texts of the first spelling")
     ok = C.standard_proof_phase(rep, MODULES, directed_search=lambda r: run(r, tier, rng))
     if ok:
